@@ -11,7 +11,7 @@ from hypothesis.stateful import RuleBasedStateMachine, initialize, precondition,
 from ..core import SimModelError, Trace, entropy_seam, rng_from
 from ..env import FakePool, Model, SimLikelihood, SimPrior, make_target
 from ..rng import make_generator
-from .base import Violation
+from .base import MachineMixin, Violation
 
 MAX_DEPTH = 4
 
@@ -198,45 +198,36 @@ class Interp:
 
 
 def make_machine(interp_factory, workdir, col):
-    class C19Machine(RuleBasedStateMachine):
+    class C19Machine(MachineMixin, RuleBasedStateMachine):
         def __init__(self):
             super().__init__()
             self.it = interp_factory(workdir, col)
 
         @initialize(primed=st.booleans(), seed=st.integers(0, 50))
         def init(self, primed, seed):
-            self.it.op_init(primed=primed, seed=seed)
+            self.do("init", primed=primed, seed=seed)
 
         @rule(close_pool=st.booleans(), parallelize_prior=st.booleans(), fail_map_at=st.one_of(st.none(), st.none(), st.integers(0, 3)))
         def enter_pool(self, close_pool, parallelize_prior, fail_map_at):
-            self.it.op_enter_pool(close_pool=close_pool, parallelize_prior=parallelize_prior, fail_map_at=fail_map_at)
+            self.do("enter_pool", close_pool=close_pool, parallelize_prior=parallelize_prior, fail_map_at=fail_map_at)
 
         @rule(file_id=st.integers(0, 2), every=st.integers(1, 3), save_config=st.booleans())
         def enter_auto(self, file_id, every, save_config):
-            self.it.op_enter_auto(file_id=file_id, every=every, save_config=save_config)
+            self.do("enter_auto", file_id=file_id, every=every, save_config=save_config)
 
         @rule()
         def exit_normal(self):
-            self.it.op_exit_normal()
+            self.do("exit_normal", )
 
         @rule()
         def raise_in_body(self):
-            self.it.op_raise_in_body()
+            self.do("raise_in_body", )
 
         @rule(sampler=st.sampled_from(["importance", "importance", "smc"]), crash_like_at=st.one_of(st.none(), st.none(), st.integers(0, 4)))
         def sample(self, sampler, crash_like_at):
-            self.it.op_sample(sampler=sampler, crash_like_at=crash_like_at)
+            self.do("sample", sampler=sampler, crash_like_at=crash_like_at)
 
         def teardown(self):
-            try:
-                col.last_ops = list(self.it.ops)
-                self.it.finish()
-                col.examples += 1
-                col.steps += len(self.it.ops)
-                col.seqs.add(tuple(op for op, _ in self.it.ops))
-                if col.sample is None and len(self.it.ops) >= 4:
-                    col.sample = {"ops": self.it.ops[:10]}
-            finally:
-                self.it.close()
+            self.finish_example(col)
 
     return C19Machine
